@@ -57,6 +57,8 @@ def impl(case: Case) -> str:
     except Exception:
         return "ERR"
     qs = spec["queries"]
+    # a simulation of the base built (entities, inputs) BEFORE anything derives from it; it calculates afterwards
+    early = real.prepare(real.systems[0], spec["sim"]) if spec.get("sim") else None
     prev = real.snaps(qs)
     stages = [su.stage_text("ok", [], prev)]
     for op in spec["ops"]:
@@ -78,6 +80,7 @@ def impl(case: Case) -> str:
     sims["l3"] = [real.simulate(real.systems[k], plan, spiral=3) for k in range(n)]
     sims["meta"] = [su.meta_of(t) for t in real.systems]
     sims["tags"] = [getattr(t, "ofv_tag", None) for t in real.systems]
+    sims["early"] = real.simulate(real.systems[0], plan, prepared=early)
     pristine = su.Real(spec)
     sims["pristine"] = pristine.simulate(pristine.systems[0], plan)
     return text + SEP + su.hexjson(sims)
@@ -108,6 +111,11 @@ def declared_formulas(cd):
 
 def complete(cd) -> bool:
     return cd["vt"] is not None and cd["entity"] is not None and cd["dp"] is not None
+
+
+def refused(cd) -> bool:
+    """the class declares a value `Variable.__init__` refuses: the statement says nothing of such a modification"""
+    return bool((cd.get("meta") or {}).get("bad"))
 
 
 META = ("label", "reference", "documentation", "unit", "cerfa_field", "calculate_output",
@@ -200,6 +208,8 @@ class SpecSys:
     def apply(self, m):
         """-> True when the statement says the modification is well defined (must succeed)"""
         k, x = m
+        if k in ("add", "rep", "upd") and refused(x):
+            return False
         if k == "add":
             if x["name"] in self.vars or not complete(x) or not formulas_ok(x["formulas"], eff_end(x)):
                 return False
@@ -270,7 +280,7 @@ class SpecSys:
 
 
 SNAP = re.compile(r"^n=(.*?)/e=(.*?)/P=(.*?)/u=(.*?)/r=(.*?)/p=(.*?)/v=(.*)$")
-VARF = ("own", "bl", "via", "vt", "default", "entity", "dp", "end", "si", "neutralized", "formulas", "at")
+VARF = ("own", "bl", "via", "vt", "default", "entity", "dp", "end", "si", "neutralized", "formulas", "at", "input", "label", "attrs")
 
 
 def parse_snap(s):
@@ -336,6 +346,10 @@ def check_system(k, spec: SpecSys, snap, qs):
             back = {ftok(f): f for d, f in v["formulas"] + v["optional"]}
             v["formulas"] = sorted((d, back[t]) for d, t in got)
             v["optional"] = []
+        # `is_input_variable()`: no formula at all
+        if o.get("input") is not None and o["input"] != ("F" if v["formulas"] else "T"):
+            return ("derived-definition:is_input_variable",
+                    f"system {k}: {name}.is_input_variable() is {o['input']} with formulas {v['formulas']}")
         # the formula in force at each query date, from the (now settled) dated formulas
         ats = o["at"].split("^")
         oldest = min(v["formulas"])[1] if v["formulas"] else None
@@ -487,6 +501,10 @@ def oracle(case: Case, impl_out: str):
             snap = parse_snap(cur[j])
             if snap["unbound"] != "T":
                 return ("entity-resolution", "the entity objects handed to the constructor of the base got bound to a system")
+            for ent in snap["ents"]:
+                if len(ent) > 1 and ent[1] != "T":
+                    return ("entity-resolution", f"system {j}: its entity {ent[0]} (as listed by entities / person_entity / "
+                                                 f"group_entities) is not bound to it: its populations resolve variables elsewhere")
             for name, o in snap["vars"].items():
                 if o["via"] != "ok":
                     return ("entity-resolution", f"system {j}: its entities resolve {name} to another object ({o['via']})")
@@ -521,6 +539,10 @@ def oracle(case: Case, impl_out: str):
             return ("simulation-order-dependent", f"system {k}: {fwd} when simulated first to last, {bwd} last to first")
         if k == 0 and fwd != sims["pristine"] and not any(op[0] == "M" and op[1] == 0 for op in spec["ops"]):
             return ("origin-calculation-changed", f"base computes {fwd}; a pristine copy built from scratch computes {sims['pristine']}")
+        if k == 0 and sims.get("early") is not None and sims["early"] != sims["pristine"] \
+                and not any(op[0] == "M" and op[1] == 0 for op in spec["ops"]):
+            return ("origin-calculation-changed", f"a simulation of the base built before the derivations computes {sims['early']} "
+                                                  f"afterwards; a pristine copy built from scratch computes {sims['pristine']}")
         if not s.judged:
             continue
         params = {n: (lambda d, n=n, s=s: s.read(n, d)) for n in s.base_params}
@@ -598,6 +620,8 @@ class Gen:
             m["max_length"] = r.choice([5, 12, 0])
         if r.random() < 0.15:
             m["set_input_none"] = True
+        if r.random() < 0.04:           # a declaration `Variable.__init__` refuses (wrong type, setter's own check)
+            m["bad"] = r.choice(sorted(su.BAD_DECLARATIONS))
         return m or None
 
     def expr(self, lower, dp, params, depth=0):
@@ -1143,16 +1167,28 @@ PROP = Prop(
           "every operation the snapshot of every system (resolution by name and through each entity, attributes, dated "
           "formulas, formula in force and parameters at the query dates, alias classes) must be equal on both sides, "
           "unchanged for every system but the target, and equal to the original rules with the declared changes; "
-          "simulations on every system, in both orders and on a pristine base, must give the values of those rules"),
+          "simulations on every system, in both orders and on a pristine base, must give the values of those rules; a "
+          "simulation of the base built (entities and inputs) before anything derives from it and calculated after the whole "
+          "history must give what the pristine base gives; every snapshot carries is_input_variable(), the label and the seven "
+          "other descriptive / behavioural attributes of every variable"),
     assumptions=[
         "variable.entity is observed through its key only (the engine reads nothing else of it)",
         "formula functions are compared by identity (annual_formula closures through the function they wrap)",
         "simulation values are small integers / dyadic rationals: float32 arithmetic is exact; cases whose intermediate "
         "values leave |x| < 2^21 are not judged",
         "parameter histories: start <= stop (claim domain of C06); formulas never request their own variable",
-        "descriptive attributes (label, reference, documentation, unit) and a custom system attribute read through "
-        "Reform.__getattr__ are checked by the oracle only (inheritance on update, identity on derivation): not in the model",
-        "Enum / str / date variables are input-only; allowed_type / required-default validation errors are not generated",
+        "the other attributes (label, reference, documentation, unit, cerfa_field, calculate_output, "
+        "is_period_size_independent, max_length) are in the model as opaque tokens of the value Variable.__init__ makes of the "
+        "declared one (that normalisation - set_label, set_documentation, set_reference - is computed by the adapter, and "
+        "independently by the oracle's norm_meta); the model decides declared / inherited / default and the [Neutralized] label; "
+        "an update never turns a non-string variable into a string one (max_length would be read from a baseline that has "
+        "none: AttributeError, not generated); a custom system attribute read through Reform.__getattr__ is checked by the oracle only",
+        "Enum / str / date variables are input-only; a class declaring a value Variable.__init__ refuses (21 kinds: wrong "
+        "type for label / end / documentation / unit / cerfa_field / reference / is_period_size_independent / default_value, a "
+        "value outside the allowed ones for value_type / definition_period, an entity that is not one, an unexpected attribute, "
+        "a formula name that is not a date) is refused by the model too (ClassDef.invalid) and leaves the systems as the model "
+        "says (replace_variable has deleted the old entry by then); the statement says nothing of such a class: the oracle "
+        "only demands that nothing but the target changes",
         "histories that modify the base after something derives from it are outside the statement: correspondence "
         "only, not claimed (theorem C14_copy_independent_of_source answers for clones)",
         "the engine's evaluation of formulas is property C01; here the calculation on a system is determined by the "
